@@ -21,3 +21,41 @@ Lemma c18_direct_writes : forallb (fun r : string * string * string =>
     negb (String.eqb (snd (fst r)) "with-args") || String.eqb (fst (fst r)) "ServeHTTP") direct_markup_writes = true.
 Proof. vm_compute. reflexivity. Qed.
 Goal True. idtac "@@OBL c18_direct_writes". Abort.
+
+(* every template whose output goes anywhere but a buffer (mail bodies) comes from html/template: a
+   text/template (no escaping at all) or a template of unknown origin executed into a response fails *)
+Lemma c18_templates_html : forallb (fun r : string * string * string * string =>
+    String.eqb (snd r) "buffer" || String.eqb (snd (fst r)) "html") template_executions = true.
+Proof. vm_compute. reflexivity. Qed.
+Goal True. idtac "@@OBL c18_templates_html". Abort.
+
+(* every text/template value constructed in the package is only ever executed into buffers (non-HTML output) *)
+Lemma c18_text_templates_offline : forallb (fun r : string * string * string * string =>
+    String.eqb (snd (fst r)) "buffer-only") text_template_sites = true.
+Proof. vm_compute. reflexivity. Qed.
+Goal True. idtac "@@OBL c18_text_templates_offline". Abort.
+
+(* a function that declares a response text/html (or computes the type) is a PAGE construction of the model: it
+   writes no non-literal value to the response by hand (Model/Html.v: page = Trusted + Escaped only; the failure
+   line with its Raw detail has no declared type) *)
+Definition html_like (ct : string) : bool :=
+  String.prefix "text/html" ct || String.prefix "application/xhtml" ct || String.prefix "image/svg" ct || String.prefix "expr:" ct.
+Lemma c18_html_typed_writers : forallb (fun r : string * string * string =>
+    negb (html_like (snd (fst r)) && String.eqb (snd r) "non-literal")) content_type_writers = true.
+Proof. vm_compute. reflexivity. Qed.
+Goal True. idtac "@@OBL c18_html_typed_writers". Abort.
+
+(* every output action of the HTML template texts sits in a context whose escaper is modelled and proved
+   (Props/C18.v c18_field_contexts_safe, c18_quoted_value, c18_unquoted_value): text, RCDATA, quoted attribute,
+   unquoted attribute, a quoted URL attribute behind a literal prefix that fixes scheme and host ("/…"), or a quoted
+   URL attribute whose field only ever holds server-side literals.  A field inside a script or style element, an
+   event handler, a style attribute, a comment, a tag, an unquoted or request-fed URL attribute fails here until
+   it gets a model of its own. *)
+Definition ctx_ok (r : string * string * string * string * string * string) : bool :=
+  let '(_, _, cls, _, _, source) := r in
+  String.eqb cls "text" || String.eqb cls "rcdata" || String.eqb cls "attr-dq" || String.eqb cls "attr-sq" ||
+  String.eqb cls "attr-unquoted" || String.eqb cls "url-attr-rooted" ||
+  (String.eqb cls "url-attr-start" && String.eqb source "server-literal").
+Lemma c18_field_contexts : forallb ctx_ok template_field_contexts = true.
+Proof. vm_compute. reflexivity. Qed.
+Goal True. idtac "@@OBL c18_field_contexts". Abort.
